@@ -132,6 +132,8 @@ def run_sequence(res, exe, rng, first, forced=None, huge=False, two=False):
             bg = bgc
             script.append("client %d: segmented upload left open (server silent, timeout 1 h)" % bgc)
         for ti, tr in enumerate(ntr):
+            if not huge:
+                tr.tticks = tr.timeout         # 1 kHz timer (the timeout of a forced transfer may have been set after its construction)
             cl = tr.cl
             TX, RX = TXs[cl], RXs[cl]
             desc = "%s%s %04x:%d %d bytes timeout %d server=%s@%d" % ("client %d " % cl if two else "", "upload" if tr.up else "download", tr.idx, tr.sub, tr.size, tr.timeout, tr.behaviour, tr.k)
@@ -179,6 +181,7 @@ def run_sequence(res, exe, rng, first, forced=None, huge=False, two=False):
             if [(c, d) for (_, c, d) in fr] != [(TX, want)]:
                 return fail("request-frame/initiate", desc + ": sent %r, reference %s" % ([("%x" % c, d.hex()) for _, c, d in fr], want.hex()))
             last_req_tick = sim.tick
+            slow = (not huge) and tr.tticks >= 5 and tr.size <= 100 and rng.random() < 0.25
             step = 0
             done = None            # (code) once the model expects completion
             pos = 0
@@ -278,7 +281,8 @@ def run_sequence(res, exe, rng, first, forced=None, huge=False, two=False):
                     break
                 if beh == "stale-answer" and step == 0:
                     # the answer to an earlier (timed-out) request for another object arrives first: it is not the answer to this request
-                    other = mux(tr.idx ^ 0x10, (tr.sub + 1) & 0xFF)
+                    # (another object altogether, or another sub-index of the same index)
+                    other = mux(tr.idx ^ 0x10, (tr.sub + 1) & 0xFF) if rng.random() < 0.5 else mux(tr.idx, (tr.sub + 1) & 0xFF)
                     stale = (bytes([0x43]) + other + gen.rand_bytes(rng, 4)) if tr.up else (bytes([0x60]) + other + bytes(4))
                     evs = sim.rx(RX, stale)
                     cb0 = callbacks(evs)
@@ -359,6 +363,14 @@ def run_sequence(res, exe, rng, first, forced=None, huge=False, two=False):
                             return fail("late-answer", desc + ": late answer caused %r / %r" % (frames(evs), callbacks(evs)))
                     done = TIMEOUT_CODE
                     break
+                if tr.behaviour == "ok" and slow and beh == "ok":
+                    # a slow server: every answer takes two thirds of the timeout - each one in time, all of them together longer than the
+                    # timeout (the supervision restarts with every request frame)
+                    evs0 = sim.cmd("tick %d" % max(1, (2 * tr.tticks) // 3))
+                    if callbacks(evs0) or frames(evs0):
+                        return fail("timeout/early", desc + ": while the server took %d ticks for its answer at step %d (timeout %d): callbacks %r frames %r" % (
+                            max(1, (2 * tr.tticks) // 3), step, tr.tticks, callbacks(evs0), frames(evs0)))
+                    res.counters["slow_answers"] += 1
                 if beh == "race":
                     # the answer arrives around the expiry of the timeout: the tick interrupts have been served (the timeout event
                     # waits in the elapsed list), the answer is handled by CONodeProcess(), then the timer processing runs
